@@ -38,19 +38,29 @@ Findings on the unchanged tree (both reproduced end to end through the real engi
   F7  redo-under-concurrency:index-started-twice  retry/rerun with more items to redo than `concurrency`: an index
                                                   that is still RUNNING is started again and a later one never
 
-Self-test mutations of /repo (scratch worktree, each gave VIOLATION with a new signature / broken obligation):
-  M1 tasks.py _increase_capacity: `< concurrency` -> `<= concurrency`         -> running-exceeds-concurrency
-  M2 tasks.py is_with_items_completed: drop `and full_capacity`                -> (correspondence) + completed-before-all-handled
-  M3 tasks.py _get_final_state: test ERROR before CANCELLED                    -> wrong-final-state
-  M4 data_flow.py get_task_execution_result: drop the sort by index            -> result-not-in-item-order (needs rerun/retry)
-  M5 tasks.py _get_next_start_index: drop `states.is_running(x.state)`        -> fresh:index-started-twice
-  M6 tasks.py on_action_complete: remove the named_lock block                  -> theorem C07_handle_atomic broken
-  M7 tasks.py _reset_actions: partial reset also un-accepts SUCCESS items      -> partial-rerun:succeeded-item-reexecuted (new input class)
-(see the final lines of this file's history for the exact outcomes).
+Self-test mutations of /repo (scratch worktree /tmp/wt_C07, `VERIF_REPO=/tmp/wt_C07 ./check C07`; each run printed,
+besides the two findings above, a NEW VIOLATION line with the signature shown / a broken obligation):
+  M1 tasks.py _schedule_actions: `self._decrease_capacity(1)` dedented out of the for loop (once per batch)
+       -> running-exceeds-concurrency  [Start 4 2; Accept 0; Handle 0]: 3 RUNNING with concurrency 2 (+1388 disagreements)
+  M2 tasks.py is_with_items_completed: `return count == len(execs)` (drops `and full_capacity`)
+       -> 1826 disagreements + fresh:index-started-twice (an item restarted by a late Handle during the retry delay)
+  M3 tasks.py _get_final_state: ERROR tested before CANCELLED
+       -> wrong-final-state  [Start 2 2; Accept 1 E; Accept 0 C; Handle 1]: task ERROR although an item was cancelled
+  M4 data_flow.py get_task_execution_result: the `execs.sort(key=index)` line removed
+       -> result-not-in-item-order  (needs a rerun: result [101, 103, 104], required [103, 101, 104])
+  M5 tasks.py _get_next_start_index: `states.is_running(x.state) or` dropped
+       -> fresh:index-started-twice  [Start 3 2; Accept 0; Handle 0]
+  M6 tasks.py on_action_complete: the `with db_api.named_lock(...)` block removed (body dedented)
+       -> obligation theorem:C07_handle_atomic broken (Gen/ItemsLock.v: handle_under_named_lock = false)
+  M7 tasks.py _has_more_iterations: `>` -> `>=`
+       -> completed-with-running-children, wrong-final-state (task SUCCESS as soon as every item is started)
+  Equivalent mutant (not detectable, and provably so): _increase_capacity `<` -> `<=`: by C07_capacity_exact the
+  capacity is below the concurrency whenever a completion is pending, so the guard never decides anything.
 """
 import contextlib
 import copy
 import json
+import time
 
 from harness import core
 
@@ -583,6 +593,31 @@ def gen_trace(rng, malformed=False, max_events=90):
             'final': impl.task_ex.state if impl.task_ex else None}
 
 
+def _gen_batch(args):
+    seed, count, malformed = args
+    import random
+    rng = random.Random(seed)
+    return [gen_trace(rng, malformed=malformed) for _ in range(count)]
+
+
+def gen_traces(ctx, count, malformed, batch=100):
+    """count traces, generated in parallel worker processes; batch seeds are drawn from ctx.rng, so the
+    result depends on VERIF_SEED only (not on the number of workers)."""
+    import multiprocessing
+    jobs = []
+    left = count
+    while left > 0:
+        k = min(batch, left)
+        jobs.append((ctx.rng.getrandbits(64), k, malformed))
+        left -= k
+    if len(jobs) <= 1:
+        return [t for j in jobs for t in _gen_batch(j)]
+    mp = multiprocessing.get_context('fork')
+    with mp.Pool(min(core.NPROC, 12)) as pool:
+        parts = pool.map(_gen_batch, jobs)
+    return [t for part in parts for t in part]
+
+
 def run_events(events, mode='literal', zero_literal=False):
     """Re-execute a given event list on the implementation (corpus, replay)."""
     impl = Impl(mode)
@@ -702,17 +737,18 @@ def run(ctx):
         t = {'events': [tuple(e) for e in c['events']], 'views': views, 'mode': c['mode'], 'failure': failure, 'name': c['name']}
         corpus.append(t)
         ctx.count('corpus', (c['mode'], tuple(t['events'])), evaluations=len(t['events']))
-        if failure:
-            report_failure(ctx, t, c['name'])
+        if failure and not any(f['signature'] == failure[0] for f in ctx.failures):
+            report_failure(ctx, minimise(t), c['name'])
     check_against_model(ctx, 'corpus', corpus)
     # generated
+    phase = ctx.cov.setdefault('phase_s', {})
     stats = {'n': {}, 'c': {}, 'mode': {}, 'style': {}, 'final': {}, 'events': 0, 'redo_rounds': 0, 'oracle_signatures': {}}
     for tag, count, malformed in (('sequences', ctx.n(2500, 40000), False), ('malformed', ctx.n(700, 10000), True)):
-        traces = []
+        t0 = time.time()
+        traces = gen_traces(ctx, count, malformed)
+        phase['generate+run-impl:' + tag] = round(time.time() - t0, 1)
         seen_sig = {}
-        for _ in range(count):
-            t = gen_trace(ctx.rng, malformed=malformed)
-            traces.append(t)
+        for t in traces:
             redo = sum(1 for e in t['events'] if e[0] in ('Continue', 'Rerun'))
             ctx.count(tag, (t['mode'], tuple(t['events'])), nontrivial=(t['n'] >= 2 or redo > 0), evaluations=len(t['events']))
             for k, v in (('n', t['n']), ('c', t['c']), ('mode', t['mode']), ('style', t['style']), ('final', t['final'])):
@@ -727,7 +763,9 @@ def run(ctx):
         for sig, t in sorted(seen_sig.items()):
             if not any(f['signature'] == sig for f in ctx.failures):
                 report_failure(ctx, minimise(t))
+        t0 = time.time()
         check_against_model(ctx, tag, traces)
+        phase['model-eval:' + tag] = round(time.time() - t0, 1)
         if traces:
             ctx.sample({'suite': tag, 'mode': traces[0]['mode'], 'events': [list(e) for e in traces[0]['events']][:40],
                         'final': traces[0]['final']})
